@@ -166,6 +166,8 @@ class Trees(Profile):
                     q["op"] = "radius"
                     q["r"] = rng.choice([0.0, 0.05, 1.0, 7.5, 30.0, 100.0, 200.0]) if q.get("csys", "x") == "spherical" or q["type"] == "ball" and "csys" not in q else rng.choice([0.0, 0.01, 0.3, 1.0, 2.1])
                     q["mode"] = rng.choice(["ind", "dist", "count", "dist_sorted"])
+                    if isinstance(q["points"][0], dict) and rng.random() < 0.35:
+                        q["r"] = 0.0  # closed ball of radius zero centred on an element
                 ops.append(q)
         return {"sources": sources, "ops": ops}
 
